@@ -10,9 +10,9 @@ not presuppose termination, a loop that does not stop within its fuel yields `Re
 
 Outcomes: `ok value state`, `err e state` (Go `error` return), `fuel` (loop did not stop).
 Errors: `parse t` is a `*rfcparser.Error` whose `Token.TType` is `t` (`MakeError` takes the previous
-token, `MakeErrorAtOffset` has `TokenTypeError`; `IsEOF()` is `t = eof`); `litZero`, `litBig` are the
-plain `fmt.Errorf` returns of `ParseLiteral` (#17), `ioEOF` the `io.EOF` of `Scanner.ConsumeBytes`,
-`panic` a Go runtime panic at one of the (guarded) panic sites.
+token, `MakeErrorAtOffset` has `TokenTypeError`; `IsEOF()` is `t = eof`); `ioEOF` is the `io.EOF` of
+`Scanner.ConsumeBytes` (the input ended inside a literal; not a `*rfcparser.Error`), `panic` a Go runtime
+panic at one of the (guarded) panic sites.
 
 Not modelled: offsets, error message texts, the continuation callback failing (it counts the calls),
 read errors of the source other than end of input.
@@ -38,8 +38,6 @@ structure PState where
 
 inductive PErr
   | parse (t : TokTy)
-  | litZero
-  | litBig
   | ioEOF
   /-- a Go runtime panic (index out of range, makeslice). In the model it propagates like an error; in
   reality the process dies. `Gluon.C11.parse_no_panic`: never produced. -/
@@ -167,8 +165,9 @@ def isAtomChar (t : TokTy) : Bool :=
   | _ => !isQuotedSpecial t && !isRespSpecial t && !isCTL t
 /-- `IsAStringChar` -/
 def isAStringChar (t : TokTy) : Bool := isAtomChar t || isRespSpecial t
-/-- `IsQuotedChar`: everything but `"` and `\` — including the EOF token (#7), CR and LF. -/
-def isQuotedChar (t : TokTy) : Bool := !isQuotedSpecial t
+/-- `IsQuotedChar`: everything but `"`, `\`, the EOF token, CR and LF (commit 18609dc; before it the EOF
+token was a quoted character and `ParseQuoted` looped forever at end of input, #7). -/
+def isQuotedChar (t : TokTy) : Bool := !isQuotedSpecial t && t != .eof && t != .cr && t != .lf
 
 /-! ### numbers -/
 
@@ -268,22 +267,28 @@ def goMakeBytes (size : Int) : P Unit := fun s =>
 on their own) -/
 def bumpConts : P Unit := fun s => .ok () { s with conts := s.conts + 1 }
 
-/-- `ParseLiteral` -/
+/-- `if p.Check(TokenTypeLF) && p.literalContinuationCb != nil { cb() }` -/
+def bumpContsIf (b : Bool) : P Unit := if b then bumpConts else pure ()
+
+/-- `ParseLiteral` (commit e5f2a7d: `{0}` is an empty literal; a negative or too large size is a parser
+error like any other, so the session answers BAD; before it both were plain errors and `{0}` was
+rejected, #17) -/
 def parseLiteral (fuel : Nat) : P Bytes := do
   consume .lcurly
   let size ← parseNumber fuel
-  if size ≤ 0 then fail .litZero
-  else if size ≥ literalCap then fail .litBig
+  if size < 0 then makeError
+  else if size ≥ literalCap then makeError
   else do
     consume .rcurly
     consume .cr
-    if (← check .lf) then
-      bumpConts
+    bumpContsIf (← check .lf)
     consume .lf
-    goMakeBytes size
-    let lit ← scannerConsumeBytes size.toNat
-    advance
-    pure lit
+    if size = 0 then pure []
+    else do
+      goMakeBytes size
+      let lit ← scannerConsumeBytes size.toNat
+      advance
+      pure lit
 
 /-- `ParseString` -/
 def parseString (fuel : Nat) : P Bytes := do
